@@ -216,6 +216,13 @@ def public_rebuild_batch(kind, trial, wd, desc, sec, psi, rng, norb, ne, what, t
         except Exception as ex:
             fails.append((kind, f"public batched calc_{what} runs (n_batch={nb})", {"norb": norb, "nelec": ne, "error": repr(ex)[:300]}))
             break
+    # every (kind, n_batch, shape) combination is a fresh XLA executable; drop them so that long (thorough) runs do not
+    # exhaust the address space of the JIT ("LLVM compilation error: Cannot allocate memory")
+    try:
+        import jax
+        jax.clear_caches()
+    except Exception:
+        pass
     return fails, evals
 
 
